@@ -3,7 +3,8 @@
 (*  conv : {op, in, in1, res, pan, muts: [{side, path, kind, in, res, pan}]}  typed projections *)
 (*         of the real Go values: input before the operation, input after it, result, and for   *)
 (*         every mutation experiment (fresh input, operation, one mutation) both sides after it *)
-(*  write: {nodes: [{g, outs: [{w, s, x}]}]}  writer text for every subtree: simple vs gen       *)
+(*  write: {nodes: [{g, outs: [{w, opt, s, x}]}]}  writer text per subtree (option matrix on the  *)
+(*         whole tree, and on the subtrees for option sets that disagree there): simple vs gen  *)
 (*  parse: {text, rs: [{m, gerr, oerr, g, o}]}  gen.Parser vs Generify(oj.Parser) per run mode     *)
 (* A conv line is replayed with the actions of Convert: TLoad = Build with the logged tree and  *)
 (* operation, TOp = Copy or InPlace, TJudge compares the logged observations with the model     *)
@@ -87,7 +88,7 @@ TJudge == /\ pc = "done" /\ IsConv
 RECURSIVE FirstNode(_, _)
 FirstNode(ns, k) == IF k > Len(ns) THEN <<>>
                     ELSE LET d == SelectSeq(ns[k].outs, LAMBDA o : o.s # o.x) IN
-                         IF d # <<>> THEN BadA(d[1].w, "text-differs", <<ns[k].g>>) ELSE FirstNode(ns, k + 1)
+                         IF d # <<>> THEN BadA(d[1].w, "text-differs", <<d[1].opt, ns[k].g>>) ELSE FirstNode(ns, k + 1)
 JudgeWrite(L) == FirstNode(L.nodes, 1)
 \* every run mode of the pair of parsers (whole-buffer Parse; ParseReader with whole / 1 / 3 / 7-byte / half reads)
 ParseApi(m) == IF m = "parse" THEN "gen.Parser=Generify(oj.Parser)" ELSE "gen.Parser.ParseReader=Generify(oj.Parser.ParseReader)"
@@ -95,8 +96,10 @@ RECURSIVE JudgeRuns(_, _)
 JudgeRuns(rs, k) ==
    IF k > Len(rs) THEN <<>>
    ELSE LET r == rs[k]
-            d == IF r.gerr \/ r.oerr THEN <<>> ELSE FirstDiff(r.g, r.o) IN      \* accept/reject agreement is C03's subject
-        IF d # <<>> THEN BadA(ParseApi(r.m), "parse-differs", <<d[1].gi, d[1].go>>) ELSE JudgeRuns(rs, k + 1)
+            d == IF r.gerr \/ r.oerr THEN <<>> ELSE FirstDiff(r.g, r.o) IN
+        \* one parser returns a value where the other returns an error: the outputs are not equal
+        IF r.gerr # r.oerr THEN BadA(ParseApi(r.m), "accept-differs", <<IF r.gerr THEN "gen.Parser-rejects" ELSE "oj.Parser-rejects">>)
+        ELSE IF d # <<>> THEN BadA(ParseApi(r.m), "parse-differs", <<d[1].gi, d[1].go>>) ELSE JudgeRuns(rs, k + 1)
 JudgeParse(L) == JudgeRuns(L.rs, 1)
 
 TCross == /\ pc = "grow" /\ c <= N /\ Log[c].ev # "conv"
